@@ -285,6 +285,7 @@ enum Retry {
 }
 
 fn retry_with_larger_budget(sc: &Scenario, extent_before: f64) -> Retry {
+    crate::run::RETRIED.fetch_add(1, std::sync::atomic::Ordering::Relaxed);
     let (verdict, st) = with_watchdog_scale(8, || match sc.entry {
         Entry::High => {
             let o = run_high(sc, false);
